@@ -17,7 +17,8 @@ EXPLANATION = (
     "CNV_NUM[c] == CNV_NUM[c ^ 0x20] for all letters; (G3) line structure is invisible: the byte filter drops "
     "LF, CR, space, digits and gap characters, sequence lines are appended without per-line state, and only a "
     "line starting with '>' starts a record; (G4) the record id is the header line without '>' and surrounding "
-    "whitespace (so a trailing CR disappears).")
+    "whitespace (so a trailing CR disappears); (G5) the sample name derived from an input file name is the same for NAME and "
+    "NAME.gz: the derivation is evaluated in a string domain (models of std path/str/Option helpers) over a table of file names.")
 UNDECIDED = ("PanSN vs per-file sample naming equivalence; byte identity of single-file vs multi-file archives "
              "(pipeline behaviour, exposed to the C04 known finding)")
 
